@@ -584,7 +584,7 @@ def pairs(draw):
     for _ in range(n):
         kind = draw(hs.sampled_from(['set', 'set', 'set', 'unset', 'deep',
                                      'respell', 'respell', 'toggle-eol',
-                                     'toggle-eol',
+                                     'toggle-eol', 'nested-order',
                                      'reorder-keys', 'reorder-keys',
                                      'add-change', 'del-change',
                                      'swap-changes', 'add-file', 'del-file',
@@ -605,6 +605,31 @@ def pairs(draw):
         if kind == 'set':
             name = draw(hs.sampled_from(names))
             attrs[name] = draw(hs.sampled_from(PERTURB_VALUES[name]))
+        elif kind == 'nested-order':
+            # the same metadata, every object (also those inside lists,
+            # at any depth) filled in the opposite order: equal content
+            nested = {'rows': [{'line': 1, 'col': 2,
+                                'spans': [[{'y': 1, 'x': 2}], {'b': 0,
+                                                               'a': 0}]}],
+                      'zeta': 1, 'alpha': {'n': 1, 'm': 2}}
+            attrs['meta'] = _reversed_keys(nested)
+
+            # ... in both trees
+            twin = t['main'] if label == 'main' else None
+            ci = 0
+
+            for cc, uc in zip(t['changes'], changes):
+                if uc['attrs'] is attrs:
+                    twin = cc['attrs']
+
+                for ff, uf in zip(cc['files'], uc['files']):
+                    if uf is attrs:
+                        twin = ff
+
+            if twin is not None:
+                twin['meta'] = copy.deepcopy(nested)
+            else:
+                del attrs['meta']
         elif kind == 'toggle-eol':
             # the last line gains or loses its terminator: other content
             named = [k for k in ('preamble', 'diff')
